@@ -29,7 +29,8 @@ Definition result_eqb {A} (eqb : A -> A -> bool) (a b : result A) : bool :=
 (* ---- decimal digits: int(), str.isdigit(), \d ---- *)
 Record dtables := {
   d_nd : list (N * N);        (* Nd: what int() and \d accept; every range is a block of ten starting at a zero *)
-  d_isdigit : list (N * N)    (* str.isdigit *)
+  d_isdigit : list (N * N);   (* str.isdigit *)
+  d_maxdigits : N             (* sys.get_int_max_str_digits(): int() refuses longer digit strings *)
 }.
 
 Fixpoint range_of (tbl : list (N * N)) (c : N) : option (N * N) :=
@@ -55,6 +56,10 @@ Fixpoint int_acc (D : dtables) (acc : N) (s : str) : option N :=
   end.
 Definition int_of (D : dtables) (s : str) : option N :=
   match s with [] => None | _ => int_acc D 0 s end.
+
+(* int(s) as the interpreter performs it: None = ValueError (a non-decimal digit, or too many digits) *)
+Definition py_int (D : dtables) (s : str) : option N :=
+  if N.ltb (d_maxdigits D) (N.of_nat (length s)) then None else int_of D s.
 
 Definition str_isdigit (D : dtables) (s : str) : bool :=
   match s with [] => false | _ => forallb (in_ranges (d_isdigit D)) s end.
